@@ -44,7 +44,6 @@ META = dict(
                   "abstraction of a loaded exception (class kind, name, argument forms, link tree) in the same driver"],
     assumptions=["coder round trips are deterministic (the same object round-trips the same way twice)",
                  "exception objects and classes have default truthiness (no __bool__/__len__), __module__ is a str or None",
-                 "MRO of the exception class contains exception classes only up to Exception/BaseException (no mixins)",
                  "SEEN_EXCEPTIONS_CACHE is not re-entered (no TaskiqResult nested in exception args, one thread)",
                  "taskiq/result/v1.py (pydantic 1) is not active in this environment and is read only"],
 )
@@ -58,12 +57,8 @@ DYN = ["Dyn", "DynHere", "DynK", "DynNoMod"]
 CUSTOM = ["Rewrites", "KwOnly", "TwoPos", "ExtraPos", "SubRewrites", "SubTwoPos", "WithLock", "StrRaises", "ReduceBad"]
 FIXED = ["UnicodeDecodeError", "JSONDecodeError", "NoResultError", "TaskiqResultTimeoutError", "ExceptionGroup", "OSError2"]
 SHADOW = ["ShadowFn", "ShadowInst", "ShadowExc", "ShadowTwoPos"]
-MIXIN = ["LocalMixin", "LocalMixinArgs", "DynMixin", "ModMixin"]      # finding D10: generated only once it is a known finding
-D10 = "pickle_mixin_base_not_exception"
-
-
-def known_signatures():
-    return {k["signature"] for k in C.load_known() if k["property"] == "C19" and k["status"] == "known"}
+MIXIN = ["LocalMixin", "LocalMixinArgs", "DynMixin", "ModMixin"]      # finding D10 (repaired in /repo 743840e)
+FALSY = ["FalsyLen", "FalsyBool"]     # finding D11 (known): corpus replay only, never generated, not in the model
 ARITY = {"KwOnly": (1, 1), "TwoPos": (2, 2), "SubTwoPos": (2, 2), "LocalSubTwoPos": (2, 2), "ExtraPos": (2, 2),
          "Rewrites": (1, 2), "SubRewrites": (1, 2)}
 ARITY.update({k: (0, 0) for k in FIXED})
@@ -98,7 +93,7 @@ def gen_arg(r, surr=True):
     return r.choice(A_SURR) if k < .975 else r.choice(A_SURRKEY)
 
 
-def gen_node(r, n, shadow, surr, mixin=False):
+def gen_node(r, n, shadow, surr, mixin=True):
     k = r.random()
     if shadow and k < .5:
         cls = r.choice(SHADOW)
@@ -131,7 +126,7 @@ def gen_node(r, n, shadow, surr, mixin=False):
                 suppress=r.random() < .35)
 
 
-def gen_case(r, shadow=False, mixin=False):
+def gen_case(r, shadow=False, mixin=True):
     n = r.choice([1, 1, 2, 2, 3, 3, 4, 4, 5, 6])
     surr = r.random() < .3
     nodes = [gen_node(r, n, shadow, surr, mixin) for _ in range(n)]
@@ -254,7 +249,8 @@ def oracle_class(enc, n, t):
         if enc != "pickle":
             return "loaded error is not one of the listed stand-ins", "base class on a JSON path"
         i = k[1]
-        if i >= len(n["mro"]) or not n["mro"][i]["ok_pickle"] or any(m["ok_pickle"] for m in n["mro"][:i]):
+        usable = [m["ok_pickle"] and m["is_exc"] for m in n["mro"]]
+        if i >= len(usable) or not usable[i] or any(usable[:i]):
             return "base-class stand-in is not the nearest reconstructible base class", "MRO index %d" % i
     else:
         return "loaded error is not one of the listed stand-ins", str(k)
@@ -316,7 +312,8 @@ def sig_of(case, obs, enc, stage):
     first = next((m for m in root["mro"] if m["ok_pickle"]), None)
     return dict(enc=enc, stage=stage, exc=o.get("exc"), msg=o.get("msg", ""), outcome=o["o"],
                 surrogate=any(m["surrogate"] for m in args), surrogate_key=any(m["surrogate_key"] for m in args),
-                mixin_first=bool(not root["exc_rt_pickle"] and first is not None and not first["is_exc"]))
+                mixin_first=bool(not root["exc_rt_pickle"] and first is not None and not first["is_exc"]),
+                falsy_reachable=any(not obs["nodes"][i].get("truthy", True) for i in rs))
 
 
 def surrogate_str_json_text(f):
@@ -343,8 +340,17 @@ def pickle_mixin_base_not_exception(f):
     return s.get("enc") == "pickle" and s.get("outcome") == "notexc" and bool(s.get("mixin_first"))
 
 
+def falsy_exception_in_chain(f):
+    """exactly: a JSON (text or dict) store raises PydanticSerializationError 'Unable to serialize unknown type' and some
+    exception reachable from the root through cause / unsuppressed context is falsy (bool(exc) is False)"""
+    s = f.get("sig") or {}
+    return (s.get("enc") in ("text", "dict") and s.get("stage") == "store" and s.get("exc") == "PydanticSerializationError"
+            and "Unable to serialize unknown type" in s.get("msg", "") and bool(s.get("falsy_reachable")))
+
+
 SIGNATURES = dict(surrogate_str_json_text=surrogate_str_json_text, surrogate_key_json_dict=surrogate_key_json_dict,
-                  pickle_mixin_base_not_exception=pickle_mixin_base_not_exception)
+                  pickle_mixin_base_not_exception=pickle_mixin_base_not_exception,
+                  falsy_exception_in_chain=falsy_exception_in_chain)
 
 
 # --------------------------------------------------------------------------- run
@@ -377,7 +383,9 @@ def graph_stats(rep, case, obs):
         if n["exc_rt_pickle"]:
             rep.count("prep:pickle:PExc")
         else:
-            idx = next((j for j, m in enumerate(n["mro"]) if m["ok_pickle"]), None)
+            idx = next((j for j, m in enumerate(n["mro"]) if m["ok_pickle"] and m["is_exc"]), None)
+            if any(m["ok_pickle"] and not m["is_exc"] for m in n["mro"][:len(n["mro"]) if idx is None else idx]):
+                rep.count("prep:pickle:mixin_skipped")
             rep.count("prep:pickle:" + ("PWrap" if idx is None and n["wrap_rt_pickle"] else "PRepr" if idx is None
                                         else "PBase0" if idx == 0 else "PBase+"))
         for m, a in zip(n["args"], s["args"] if len(s["args"]) == len(n["args"]) else [None] * len(n["args"])):
@@ -413,7 +421,7 @@ def count_cuts(rep, case, t, i, path, enc):
             count_cuts(rep, case, sub, j, p, enc)
 
 
-def explore(ctx, rep, cases, label, use_oracle=True):
+def explore(ctx, rep, cases, label, use_oracle=True, use_model=True):
     obs = C.run_driver(ctx, "excser_driver", cases)
     lits, keep = [], []
     nfail = 0
@@ -445,6 +453,8 @@ def explore(ctx, rep, cases, label, use_oracle=True):
         lits.append(C.cpair(C.clist([c_node(n) for n in o["nodes"]]), C.cn(0), c_outcome(o["enc"]["text"]),
                             c_outcome(o["enc"]["dict"]), c_outcome(o["enc"]["pickle"])))
         keep.append(c)
+    if not use_model:        # outside the model's assumptions (finding D11: falsy exception objects): oracle only
+        return False, nfail
     bad, fails, _ = C.coq_eval(ctx, label, COQ_HEADER, lits, COQ_BODY, shard=250)
     rep.corr(label, len(lits), bad, fails, lambda i: keep[i])
     rep.traces += len(lits) - len(bad)
@@ -455,28 +465,24 @@ def run(ctx):
     rep = C.Report(ctx, META)
     rep.add_obligations(C.proof_obligations("C19"))
     corpus_known = {}
-    known = known_signatures()
-    mixin = D10 in known
-    rep.extra["d10_mixin_branch_enabled"] = mixin
     for name, c in C.load_corpus("C19"):
-        if c.get("requires_known") and c["requires_known"] not in known:
-            rep.count("corpus:skipped(proposed finding %s not in known_findings.json)" % c["requires_known"])
-            continue
         before = len(rep.failures)
-        explore(ctx, rep, [c], "corpus_" + name.replace(".json", "").replace("-", "_"), use_oracle=c.get("family") != "shadow")
+        explore(ctx, rep, [c], "corpus_" + name.replace(".json", "").replace("-", "_"),
+                use_oracle=c.get("family") != "shadow", use_model=c.get("family") != "falsy")
         for sig, pred in SIGNATURES.items():
             if any(pred(f) for f in rep.failures[before:]):
                 corpus_known[sig] = True
     r = ctx.sub_rng("gen")
-    cases = [gen_case(r, mixin=mixin) for _ in range(ctx.n(3000, 60000))]
+    cases = [gen_case(r) for _ in range(ctx.n(3000, 60000))]
     broken, _ = explore(ctx, rep, cases, "main")
     rs = ctx.sub_rng("shadow")
     b2, _ = explore(ctx, rep, [gen_case(rs, shadow=True) for _ in range(ctx.n(300, 4000))], "shadow", use_oracle=False)
     broken = broken or b2
-    unexplained = [f for f in rep.failures if not any(p(f) for p in SIGNATURES.values())]
+    live = {k["signature"] for k in C.load_known() if k["property"] == "C19" and k["status"] == "known"}
+    unexplained = [f for f in rep.failures if not any(p(f) for name, p in SIGNATURES.items() if name in live)]
     if (broken or any(not o["ok"] for o in rep.obligations)) and not unexplained:
         r2 = ctx.sub_rng("search")
-        explore(ctx, rep, [gen_case(r2, mixin=mixin) for _ in range(ctx.n(12000, 60000))], "search")
+        explore(ctx, rep, [gen_case(r2) for _ in range(ctx.n(12000, 60000))], "search")
     return rep.finish(SIGNATURES, corpus_known)
 
 
@@ -503,6 +509,9 @@ def replay(ctx, path):
             rc = 1
         else:
             print("  statement holds")
+    if c.get("family") == "falsy":
+        print("model: not applicable (falsy exception objects are outside the model's assumptions, finding D11)")
+        return rc
     lit = C.cpair(C.clist([c_node(n) for n in obs["nodes"]]), C.cn(0), c_outcome(obs["enc"]["text"]),
                   c_outcome(obs["enc"]["dict"]), c_outcome(obs["enc"]["pickle"]))
     body = ("Eval vm_compute in (map (fun '(g, r, _, _, _) => (roundtrip EText g r, roundtrip EDict g r, roundtrip EPickle g r)) cases).\n"
